@@ -170,3 +170,21 @@ def rel_width(lo, hi):
     if m == 0 or math.isinf(m):
         return math.inf
     return (hi - lo) / m
+
+
+def rmsle_nan_admitted(points, reduced):
+    """True if, for some point of some segment with >= 3 points, the rounding bound of the chord admits
+    y_hat + 1 <= 0: an evaluation of the definition in the intercept form x*m + b may then take the
+    logarithm of a non-positive number (large x offset relative to the segment's span, chord ending near
+    y = 0).  The definition is numerically meaningless there and nothing is decided."""
+    points = np.asarray(points, dtype=float)
+    x, y = _valid(points)
+    reduced = [int(r) for r in reduced]
+    for k in range(len(reduced) - 1):
+        a, b = reduced[k], reduced[k + 1]
+        if b - a + 1 <= 2:
+            continue
+        c, delta = _chord(x, y, a, b)
+        if np.any(c - delta + 1.0 <= 0.0):
+            return True
+    return False
